@@ -66,6 +66,124 @@ Proof.
   unfold collapse in Hc. rewrite Hc. reflexivity.
 Qed.
 
+(* ---- ' '.join(v.split()) and v.split()[0] see a text only through its collapse --------------------- *)
+Lemma js_collapse_go : forall t st b,
+  (b = true -> st <> JsWord) ->
+  js_go space_set st (collapse_go space_set b t) = js_go space_set st t.
+Proof.
+  induction t as [|c t IH]; intros st b Hb; [reflexivity|].
+  cbn [collapse_go js_go]. destruct (cmem c space_set) eqn:Hc.
+  - destruct b.
+    + assert (E : match st with JsStart => JsStart | _ => JsGap end = st)
+        by (destruct st; try reflexivity; exfalso; apply (Hb eq_refl); reflexivity).
+      rewrite E. apply IH. exact Hb.
+    + cbn [js_go]. rewrite blank_is_space. apply IH. intros _. destruct st; discriminate.
+  - cbn [js_go]. rewrite Hc.
+    destruct st; rewrite (IH JsWord false) by discriminate; reflexivity.
+Qed.
+
+Lemma join_split_collapse u u' :
+  collapse u = collapse u' -> join_split space_set u = join_split space_set u'.
+Proof.
+  unfold collapse, join_split. intros H.
+  rewrite <- (js_collapse_go u JsStart false), <- (js_collapse_go u' JsStart false) by discriminate.
+  rewrite H. reflexivity.
+Qed.
+
+Lemma take_word_collapse : forall t,
+  take_word space_set (collapse_go space_set false t) = take_word space_set t.
+Proof.
+  induction t as [|c t IH]; [reflexivity|]. cbn [collapse_go take_word].
+  destruct (cmem c space_set) eqn:Hc.
+  - cbn [take_word]. rewrite blank_is_space. reflexivity.
+  - cbn [take_word]. rewrite Hc, IH. reflexivity.
+Qed.
+
+Lemma first_word_collapse_go : forall t b,
+  first_word space_set (collapse_go space_set b t) = first_word space_set t.
+Proof.
+  unfold first_word. induction t as [|c t IH]; intros b; [reflexivity|].
+  cbn [collapse_go lstrip]. destruct (cmem c space_set) eqn:Hc.
+  - destruct b; [apply IH|]. cbn [lstrip]. rewrite blank_is_space. apply IH.
+  - cbn [lstrip]. rewrite Hc. cbn [take_word]. rewrite Hc, take_word_collapse. reflexivity.
+Qed.
+
+Lemma first_word_collapse u u' :
+  collapse u = collapse u' -> first_word space_set u = first_word space_set u'.
+Proof.
+  unfold collapse. intros H.
+  rewrite <- (first_word_collapse_go u false), <- (first_word_collapse_go u' false), H. reflexivity.
+Qed.
+
+(* str.upper() neither creates nor removes white space: a table fact about the regenerated upper_tab *)
+Definition upper_img (c : N) : text := match ufind c upper_tab with Some v => v | None => [c] end.
+Definition upper_entry_ok (k : N) (v : list N) : bool :=
+  negb (cmem k space_set) && negb (nilb v) && forallb (fun d => negb (cmem d space_set)) v.
+Lemma upper_tab_space_ok : uforall upper_entry_ok upper_tab = true.
+Proof. vm_compute. reflexivity. Qed.
+
+Lemma uforall_find P : forall m c v, uforall P m = true -> ufind c m = Some v -> exists k, P k v = true /\ k = c.
+Proof.
+  induction m as [|l IHl k w r IHr]; intros c v H F; [discriminate|].
+  cbn [uforall] in H. apply andb_true_iff in H. destruct H as [H Hr].
+  apply andb_true_iff in H. destruct H as [Hk Hl].
+  cbn [ufind] in F. destruct (N.compare c k) eqn:E.
+  - apply N.compare_eq in E. inversion F. subst. exists k. auto.
+  - apply (IHl c v Hl F).
+  - apply (IHr c v Hr F).
+Qed.
+
+Lemma upper_img_space c : cmem c space_set = true -> upper_img c = [c].
+Proof.
+  intros Hc. unfold upper_img. destruct (ufind c upper_tab) as [v|] eqn:F; [|reflexivity].
+  destruct (uforall_find _ _ _ _ upper_tab_space_ok F) as (k & Hk & ->).
+  unfold upper_entry_ok in Hk. rewrite Hc in Hk. discriminate.
+Qed.
+
+Lemma upper_img_nonspace c : cmem c space_set = false ->
+  upper_img c <> [] /\ forallb (fun d => negb (cmem d space_set)) (upper_img c) = true.
+Proof.
+  intros Hc. unfold upper_img. destruct (ufind c upper_tab) as [v|] eqn:F.
+  - destruct (uforall_find _ _ _ _ upper_tab_space_ok F) as (k & Hk & ->).
+    unfold upper_entry_ok in Hk. apply andb_true_iff in Hk. destruct Hk as [Hk Hv].
+    apply andb_true_iff in Hk. destruct Hk as [_ Hn]. split; [|exact Hv].
+    destruct v; [discriminate|discriminate].
+  - split; [discriminate|]. cbn [forallb]. rewrite Hc. reflexivity.
+Qed.
+
+Lemma upper_cons c t : upper (c :: t) = upper_img c ++ upper t.
+Proof. reflexivity. Qed.
+
+Lemma take_word_nonspace_app : forall w r,
+  forallb (fun d => negb (cmem d space_set)) w = true ->
+  take_word space_set (w ++ r) = w ++ take_word space_set r.
+Proof.
+  induction w as [|d w IH]; intros r H; [reflexivity|]. cbn [forallb] in H.
+  apply andb_true_iff in H. destruct H as [Hd Hw]. apply negb_true_iff in Hd.
+  cbn [app take_word]. rewrite Hd, (IH r Hw). reflexivity.
+Qed.
+
+Lemma upper_take_word : forall t, upper (take_word space_set t) = take_word space_set (upper t).
+Proof.
+  induction t as [|c t IH]; [reflexivity|]. cbn [take_word]. rewrite upper_cons.
+  destruct (cmem c space_set) eqn:Hc.
+  - rewrite (upper_img_space c Hc). cbn [app take_word]. rewrite Hc. reflexivity.
+  - destruct (upper_img_nonspace c Hc) as [_ Hn].
+    rewrite upper_cons, (take_word_nonspace_app _ _ Hn), IH. reflexivity.
+Qed.
+
+Lemma upper_first_word : forall t, upper (first_word space_set t) = first_word space_set (upper t).
+Proof.
+  unfold first_word. induction t as [|c t IH]; [reflexivity|]. cbn [lstrip]. rewrite upper_cons.
+  destruct (cmem c space_set) eqn:Hc.
+  - rewrite (upper_img_space c Hc). cbn [app lstrip]. rewrite Hc. exact IH.
+  - rewrite upper_take_word, upper_cons.
+    destruct (upper_img_nonspace c Hc) as [Hne Hn].
+    destruct (upper_img c) as [|d w] eqn:E; [congruence|].
+    cbn [forallb] in Hn. apply andb_true_iff in Hn. destruct Hn as [Hd _]. apply negb_true_iff in Hd.
+    cbn [app lstrip]. rewrite Hd. reflexivity.
+Qed.
+
 (* ================================================================================================
    2. the token relation, as propositions
    ================================================================================================ *)
@@ -116,18 +234,36 @@ Lemma csl_skel st a b :
 Proof.
   intros [Hty H]. destruct (is_kw_tok a) eqn:Ka.
   2:{ rewrite Hty, H. reflexivity. }
-  destruct H as (Hc & He & _). rewrite <- Hty.
+  destruct H as (Hc & _ & _). rewrite <- Hty.
   unfold is_kw_tok in Ka. pose proof (kw_not_punct _ Ka) as Hp.
   unfold T_Keyword, T_Punctuation in *.
-  unfold end_multi, sk_END_multi in He. cbn [existsb] in He.
-  unfold change_splitlevel. rewrite Hp, Ka. cbn [andb negb existsb].
-  set (u := upper (snd a)) in *. set (u' := upper (snd b)) in *.
-  rewrite He.
-  match goal with |- context [text_prefixb ?w u] => rewrite (prefix_collapse u u' w Hc eq_refl) end.
-  repeat match goal with
-         | |- context [text_eqb u ?w] => rewrite (eqb_collapse u u' w Hc eq_refl)
-         end.
-  reflexivity.
+  unfold change_splitlevel. rewrite Hp, Ka. cbn [andb negb].
+  rewrite (join_split_collapse _ _ Hc). reflexivity.
+Qed.
+
+(* the guard follows from the unguarded relation: the tables compare the collapsed upper-cased spelling *)
+Lemma guard_free a b :
+  fst a = fst b -> collapse (upper (snd a)) = collapse (upper (snd b)) ->
+  end_multi a = end_multi b /\ go_word a = go_word b.
+Proof.
+  intros Hty Hc. unfold end_multi, go_word.
+  rewrite (join_split_collapse _ _ Hc), !upper_first_word, (first_word_collapse _ _ Hc). auto.
+Qed.
+
+Lemma tok_skel0b_guard a b : tok_skel0b a b = true -> tok_guardb a b = true.
+Proof.
+  unfold tok_skel0b, tok_guardb, skey. intros H. apply andb_true_iff in H. destruct H as [Hty Hv].
+  apply ttype_eqb_eq in Hty. cbn [fst snd] in Hv. apply text_eqb_eq in Hv.
+  assert (K : is_kw_tok b = is_kw_tok a) by (unfold is_kw_tok; rewrite Hty; reflexivity).
+  rewrite K in Hv. destruct (is_kw_tok a) eqn:Ka; [|reflexivity]. cbn [negb orb].
+  unfold kw_key in Hv. destruct (guard_free a b Hty Hv) as [E G]. rewrite E, G, !eqb_reflx.
+  destruct (ttype_eqb (fst a) T_Keyword); reflexivity.
+Qed.
+
+Lemma tok_skelb_any g a b : tok_skelb false a b = true -> tok_skelb g a b = true.
+Proof.
+  unfold tok_skelb. cbn [negb orb]. rewrite andb_true_r. intros H. rewrite H, (tok_skel0b_guard _ _ H).
+  destruct g; reflexivity.
 Qed.
 
 Lemma term_skel lv a b :
@@ -476,6 +612,37 @@ Theorem split_skelb_invariant l l' :
   = stmt_sigs (process reset_sstate change_splitlevel eos_ttypes is_terminator l').
 Proof. intros H. apply (split_skel_invariant true). exact H. Qed.
 
+(* ---- without the spelling guard: the tables compare the collapsed, upper-cased spelling ------------- *)
+Lemma chunk_relb_unguard sup c c' :
+  chunk_relb false sup c c' = true -> chunk_brkb c c' = true -> chunk_relb true sup c c' = true.
+Proof.
+  destruct c as [w a], c' as [w' b]. unfold chunk_relb, chunk_brkb. cbn [negb orb fst snd].
+  rewrite !andb_true_r. intros H B.
+  apply andb_true_iff in H. destruct H as [H H6]. apply andb_true_iff in H. destruct H as [H H5].
+  rewrite H, (tok_skelb_any true _ _ H5), H6, B. reflexivity.
+Qed.
+
+Lemma skel_gen_unguard sup l l' :
+  skel_gen false sup l l' = true -> brk_agreeb l l' = true -> skel_gen true sup l l' = true.
+Proof.
+  unfold skel_gen, brk_agreeb.
+  destruct (chunks l) as [cs tr]. destruct (chunks l') as [cs' tr']. cbn [fst].
+  intros H B. apply andb_true_iff in H. destruct H as [H H4].
+  apply andb_true_iff in H. destruct H as [H H3]. apply andb_true_iff in H. destruct H as [H H2].
+  rewrite H2, H3, H4, !andb_true_r.
+  revert cs' H B. induction cs as [|c cs IH]; destruct cs' as [|c' cs']; cbn [forall2b]; auto.
+  intros H B. apply andb_true_iff in H. destruct H as [H1 Hr]. apply andb_true_iff in B. destruct B as [B1 Br].
+  rewrite (chunk_relb_unguard _ _ _ H1 B1), (IH _ Hr Br). reflexivity.
+Qed.
+
+(* THE skeleton relation of C11 (same significant tokens up to keyword case and inner whitespace, runs
+   non-empty at the same places), no guard on the spelling of any keyword *)
+Theorem split_skel0_invariant l l' :
+  skel0b l l' = true -> brk_agreeb l l' = true ->
+  stmt_sigs (process reset_sstate change_splitlevel eos_ttypes is_terminator l)
+  = stmt_sigs (process reset_sstate change_splitlevel eos_ttypes is_terminator l').
+Proof. intros H B. apply split_skelb_invariant, skel_gen_unguard; assumption. Qed.
+
 (* ================================================================================================
    6. from a token-by-token relation between two streams of the same types (what the lexer-level
       invariance theorems deliver)
@@ -533,4 +700,5 @@ Qed.
 End Pointwise.
 
 Print Assumptions split_skel_invariant.
+Print Assumptions split_skel0_invariant.
 Print Assumptions split_pointwise.
